@@ -15,6 +15,7 @@ EXPLANATION = (
     "read in remove_callback; behaviour when the 31-bit counters overflow.")
 ASSUMPTIONS = ["pika::memory::intrusive_ptr copy/move/assign only affect the token reference count (intrusive_ptr_add_ref/release)",
                "std::atomic operations are the only accesses to state_"]
+THOROUGH_CONFIGS = [["-UNDEBUG", "-DPIKA_DEBUG"]]
 FLOORS = {"C14.R1": 6, "C14.R2": 6, "C14.R3": 5, "C14.R4": 8, "C14.R5": 6, "C14.R6": 4}
 
 SS = "pika::detail::stop_state"
